@@ -16,6 +16,19 @@ def is_backend(v):
     return isinstance(v, tuple) and v and v[0] == "backend"
 
 
+def norm_recv(v, depth=0):
+    """A wrapper struct that holds the stream handle in a field (WriterWithPos, ReaderWithPos,
+    SliceWithPos, SchemaWriter built around the backend) is the stream handle."""
+    if isinstance(v, tuple) and v and depth < 4:
+        if v[0] == "backend":
+            return ("backend",)
+        if v[0] == "adt":
+            for (_i, fv) in v[3]:
+                if norm_recv(fv, depth + 1) == ("backend",):
+                    return ("backend",)
+    return v
+
+
 class WireHooks:
     """Events appended to st.events:
       ('W', recv, kind, info..., span)   writer events  kind in B|F|Z|A|Flush
@@ -38,7 +51,7 @@ class WireHooks:
         ti = ip.u.trait_item_of(resolved or callee) or callee
         sh = short(ti)
         name = dj.get("name")
-        a0 = ip.load_ref(st, args[0]) if args else None
+        a0 = norm_recv(ip.load_ref(st, args[0])) if args else None
         if dj["krate"] == "core":
             # backend.data[..n]   (Index::index on the remaining slice)
             if sh in ("Index::index", "IndexMut::index_mut") and len(args) == 2 and a0 == ("bdata",):
@@ -91,8 +104,8 @@ class WireHooks:
             return [(st, ok(UNIT))]
         if sh == "SerializeInner::_serialize_inner" and len(args) == 2:
             V = targs[0] if targs else None
-            recv = ip.load_ref(st, args[1])
-            st.events.append(("W", recv, "F", V, a0, None, sp))
+            recv = norm_recv(ip.load_ref(st, args[1]))
+            st.events.append(("W", recv, "F", V, ip.load_ref(st, args[0]), None, sp))
             return [(st, ok(UNIT))]
         if sh in ("WriteWithPos::pos", "ReadWithPos::pos") and len(args) == 1:
             return [(st, ("pos", a0, len(st.events)))]
